@@ -33,8 +33,8 @@ PROPS = {
 }
 
 PROPS["C16"] = {
-    "level_text": "Theorems on statement-level models of the parsers (checked slices: a Go panic is a model panic): tree round-trip parse(ser es) = es for every storable entry list, commit and tag exactness (`commit_exact`, `tag_exact`: for EVERY well-formed object — any extra header lines incl. ones spelt parent/tree/object/type, continuation lines imitating headers, any message bytes — exactly the tree+parents / object+type are returned), totality (no panic) of tree/commit/tag/batch-header/reference parsers on ALL byte strings, termination by a consumed-bytes measure; ParseBatchHeader and ParseReference are REGENERATED from the source (every words[i], header[len-1], header[:len-1] a checked operation) and proved to have the models' outcome; correspondence on structured objects (gpgsig/mergetag blocks, messages imitating headers, odd modes, arbitrary name bytes) and a mutation stream (truncation at every byte, flips, splices).",
-    "level_note": "Trusted: Lean kernel; the hand-written models are tied to git/*.go by differential testing only (bounded by the generators); Go's strconv.ParseUint / hex.DecodeString are modelled.",
+    "level_text": "Theorems on statement-level models of the parsers (checked slices: a Go panic is a model panic): tree round-trip parse(ser es) = es for every storable entry list, commit and tag exactness (`commit_exact`, `tag_exact`: for EVERY well-formed object — any extra header lines incl. ones spelt parent/tree/object/type, continuation lines imitating headers, any message bytes — exactly the tree+parents / object+type are returned), totality (no panic) of tree/commit/tag/batch-header/reference parsers on ALL byte strings, termination by a consumed-bytes measure; ALL parsers are REGENERATED from the source by tools/gostr2lean — TreeIter.NextEntry, NewObjectHeaderIter, ObjectHeaderIter.Next, ParseCommit, ParseTag (pointer receivers as state in/out, header loops on fuel len(iter.data)+1), ParseBatchHeader, ParseReference; every slice and index a checked operation — and proved to have the models' outcome on every byte string (`object_parsers_source`, `listing_parsers_source`), so the theorems hold of the current source and the source never panics (`object_parsers_source_total`); correspondence on structured objects (gpgsig/mergetag blocks, messages imitating headers, odd modes, arbitrary name bytes) and a mutation stream (truncation at every byte, flips, splices).",
+    "level_note": "Trusted: Lean kernel; tools/gostr2lean (the translation of the parsers' Go statements into the Res monad, itself exercised by the parsers engine: model = implementation on every case); Go's strconv.ParseUint, hex.DecodeString, bytes.Index, strings.IndexByte are modelled; ParseTree's string copy and the iteration protocol of the callers in sizes/graph.go are tied by differential testing.",
     "technique": "Lean 4 proof on parser models + differential correspondence",
     "modules": ["GitSizer.Props.C16"],
     "engines": [{"name": "parsers", "quick": 40000, "thorough": 4000000, "per_shard": 20000}],
